@@ -141,6 +141,12 @@ pub fn check_case(tape: &[u16], rc: &mut RCase) -> Result<(), Failure> {
                 rc.label("deferred:quantity(C02)");
                 return Ok(());
             }
+            if x.redeemer_conflict {
+                // a redeemer written for a policy whose mint and burn cancel exactly: there is no
+                // item to attach it to, an error is the sensible outcome (same rule as C01 / C08)
+                rc.label("excluded:redeemer_for_cancelled_policy");
+                return Ok(());
+            }
             return Err(Failure::new(format!("err_in_fragment:{}", e.stage()), e.describe(), rendered()));
         }
     };
